@@ -609,7 +609,7 @@ def c20(pid, tier, seed, workdir):
             conc["into_inner_states"] = rcd["distinct"]
         elif "Invariant C20_Bounded is violated" not in rcd["out"]:
             raise ToolError("ConcDrop.tla: the try_unwrap discipline is expected to violate C20_Bounded:\n" + rcd["out"][-1000:])
-    crate = os.path.join(_vc.VERIF, "autotraits")
+    crate = _vc.scratch_crate(os.path.join(_vc.VERIF, "autotraits"))
     rcb, ob = sh(["cargo", "build", "--offline", "--release"], 1200, env=_vc.cargo_env(), cwd=crate)
     if rcb != 0:
         conc["probe"] = "not run: the thread-using client crate does not build against this tree (see C18)"
@@ -734,7 +734,7 @@ def c18(pid, tier, seed, workdir):
     from vcheck import sh, cargo_env, REPLAYS
     bindir = build_harness("release")   # the main harness does not require Send/Sync
     # (i) compile probe: a client crate that requires Send + Sync of the public types
-    crate = os.path.join(vcheck.VERIF, "autotraits")
+    crate = vcheck.scratch_crate(os.path.join(vcheck.VERIF, "autotraits"))
     rc, out = sh(["cargo", "build", "--offline", "--release"], 1200, env=cargo_env(), cwd=crate)
     if rc != 0:
         if ("cannot be sent between threads safely" in out or "cannot be shared between threads safely" in out
@@ -816,17 +816,46 @@ PROBE_CFG = {"C17": "ProbeHash.cfg", "C11": "ProbeHash.cfg"}
 
 
 def replay(pid, path):
-    """Re-validate one replay file with the conjuncts of pid."""
+    """Re-execute a replay file on the engine as it is now and validate the fresh observations with the
+    conjuncts of pid.  Game traces are re-driven (root re-created, logged actions re-applied); notation and
+    diagram records are re-parsed.  Other records (hash groups, ladder runs, thread digests, compiler output)
+    are re-validated as stored - re-run ./check <ID> to reproduce those."""
+    import vcheck
+    from vcheck import sh
     path = os.path.abspath(path)
-    if pid == "C15" and '"k":"' in open(path, encoding="utf-8").readline():
-        r = validate_trace(path, pid, cfg="Probe.cfg", module="DiagramTrace.tla")
+    if path.endswith(".txt"):
+        log(open(path, errors="replace").read()[-3000:])
+        log("VIOLATION property=%s replay=%s" % (pid, path))
+        return 1
+    first = open(path, encoding="utf-8").readline()
+    fresh = os.path.join(vcheck.WORK, "replay_%s.ndjson" % pid)
+    os.makedirs(vcheck.WORK, exist_ok=True)
+    is_game = first.startswith('{"ev":"reset"')
+    has_threads = is_game and any('"ev":"tdig"' in l or '"ev":"pdig"' in l for l in open(path, encoding="utf-8"))
+    if is_game and pid != "C11" and not has_threads:
+        bindir = build_harness("release")
+        rc, o = sh([os.path.join(bindir, "redrive"), path, fresh], 600)
+        if rc != 0:
+            raise ToolError("redrive failed: %s" % o[-500:])
+        r = validate_trace(fresh, pid)
+        what = "re-driven on the current engine"
+    elif '"k":"' in first and pid in ("C16", "C15"):
+        bindir = build_harness("release")
+        fam = "notation" if pid == "C16" else "diagram"
+        rc, o = sh([os.path.join(bindir, "probe"), "rerun", fam, path, fresh], 600)
+        if rc != 0:
+            raise ToolError("probe rerun failed: %s" % o[-500:])
+        r = validate_trace(fresh, pid, cfg="Probe.cfg", module=PROBE_MODULES[pid] if pid == "C16" else "DiagramTrace.tla")
+        what = "re-parsed by the current engine"
     elif pid in PROBE_MODULES:
         r = validate_trace(path, pid, cfg=PROBE_CFG.get(pid, "Probe.cfg"), module=PROBE_MODULES[pid])
+        what = "stored records re-validated"
     else:
         r = validate_trace(path, pid)
+        what = "stored events re-validated"
     if r["accepted"]:
-        log("replay accepted: %s (%d events)" % (path, r["lines"]))
+        log("replay accepted (%s): %s (%d events)" % (what, path, r["lines"]))
         return 0
-    log("replay rejected at line %s: %s" % (r["rejected_at"], "; ".join("%s line %s: %s" % f for f in r["fails"])))
+    log("replay rejected (%s) at line %s: %s" % (what, r["rejected_at"], "; ".join("%s line %s: %s" % f for f in r["fails"])))
     log("VIOLATION property=%s replay=%s" % (pid, path))
     return 1
